@@ -4,6 +4,7 @@ import (
 	"context"
 	"flag"
 	"fmt"
+	"runtime"
 	"strings"
 	"sync"
 	"sync/atomic"
@@ -173,6 +174,7 @@ type caseState struct {
 	signals   int64 // atomic
 	completed bool  // property goroutine only
 
+	late       sync.WaitGroup // goroutines that register cleanups while the cleanup phase is running
 	mu         sync.Mutex
 	registered map[int64]int
 	ran        map[int64]int
@@ -226,6 +228,14 @@ func (st *caseState) runCleanup(t *rapid.T, id int64, cs *cleanupSpec) {
 			}()
 		}
 		wg.Wait()
+		// ... and one goroutine that is NOT joined here: it registers a cleanup while the property goroutine goes on
+		// popping and running the remaining cleanups.  It is joined by the cleanup registered first (which runs last).
+		st.late.Add(1)
+		go func() {
+			defer st.late.Done()
+			runtime.Gosched()
+			st.register(t, nil)
+		}()
 	}
 }
 
@@ -292,6 +302,7 @@ func (w *tmWorkload) prop(t *rapid.T) {
 
 	st := &caseState{p: w.p, stats: w.stats, registered: map[int64]int{}, ran: map[int64]int{}}
 	w.cur = st
+	t.Cleanup(func() { st.late.Wait() }) // registered first, runs last: joins the late registrars
 	start := make(chan struct{})
 	var wg sync.WaitGroup
 	for i := 0; i < w.p.g; i++ {
